@@ -317,6 +317,9 @@ where
         cases,
         failure_persistence: None,
         max_shrink_iters: 4096,
+        // shrinking only makes the reported case smaller; with cases that take
+        // a second each (65,535-row tables) it is cut off after a minute
+        max_shrink_time: 60_000,
         max_global_rejects: 1 << 20,
         ..Config::default()
     };
